@@ -205,34 +205,39 @@ func (a *segment) Alloc(numBytes int) ([]byte, error) {
 // AllocSet is like Set(), but the caller must provide []byte
 // parameters that came from Alloc(), for less buffer copying.
 func (a *segment) AllocSet(keyFromAlloc, valFromAlloc []byte) error {
+	return a.allocMutate(OperationSet, keyFromAlloc, valFromAlloc)
+}
+
+// allocMutate records an operation whose key and val came from Alloc().
+// A plain Set/Del/Merge() on the same batch in between may have grown
+// (i.e., replaced) the buffer, in which case the slices no longer point
+// into it and have to be copied like those of a plain operation.
+func (a *segment) allocMutate(operation uint64,
+	keyFromAlloc, valFromAlloc []byte) error {
 	bufCap := cap(a.buf)
+	keyCap := cap(keyFromAlloc)
 
-	keyStart := bufCap - cap(keyFromAlloc)
+	if keyCap > bufCap || (keyCap > 0 &&
+		&keyFromAlloc[:keyCap][keyCap-1] != &a.buf[:bufCap][bufCap-1]) {
+		return a.mutate(operation, keyFromAlloc, valFromAlloc)
+	}
 
-	return a.mutateEx(OperationSet,
+	keyStart := bufCap - keyCap
+
+	return a.mutateEx(operation,
 		keyStart, len(keyFromAlloc), len(valFromAlloc))
 }
 
 // AllocDel is like Del(), but the caller must provide []byte
 // parameters that came from Alloc(), for less buffer copying.
 func (a *segment) AllocDel(keyFromAlloc []byte) error {
-	bufCap := cap(a.buf)
-
-	keyStart := bufCap - cap(keyFromAlloc)
-
-	return a.mutateEx(OperationDel,
-		keyStart, len(keyFromAlloc), 0)
+	return a.allocMutate(OperationDel, keyFromAlloc, nil)
 }
 
 // AllocMerge is like Merge(), but the caller must provide []byte
 // parameters that came from Alloc(), for less buffer copying.
 func (a *segment) AllocMerge(keyFromAlloc, valFromAlloc []byte) error {
-	bufCap := cap(a.buf)
-
-	keyStart := bufCap - cap(keyFromAlloc)
-
-	return a.mutateEx(OperationMerge,
-		keyStart, len(keyFromAlloc), len(valFromAlloc))
+	return a.allocMutate(OperationMerge, keyFromAlloc, valFromAlloc)
 }
 
 // ------------------------------------------------------
